@@ -386,8 +386,14 @@ Definition process_header (c : cfg) (is_cookie : bool) (value : list Z) (dh : dh
   end.
 
 (** after the loop: HTTP/1.1 requires Host *)
-Definition host_check (has_host proto11 : bool) : res :=
-  if negb has_host && proto11 then Reject 400 else Ok.
+(** [split]: outcome of urllib.parse.urlsplit('//' + host), raise-set {ValueError} (unbalanced IPv6 brackets):
+    request.base is built from the Host value, so an authority urllib cannot split is refused here *)
+Definition host_check (has_host proto11 : bool) (split : outcome) : res :=
+  if negb has_host then (if proto11 then Reject 400 else Ok)
+  else match split with
+       | OOk => Ok
+       | OExn e => translate [EValue] 400 e 5
+       end.
 
 (* ------------------------------------------------------------------ *)
 (** * process_query_string / parse_query_string
@@ -1098,7 +1104,7 @@ Definition run_C07 (s : sx) : sx :=
   of_res
   match sx_Z (nth_sx 0 s) with
   | 1 => process_header c (sx_bool (a 2%nat)) (sx_Zs (a 3%nat)) (sx_dh (a 4%nat)) (sx_outcome (a 5%nat))
-  | 2 => host_check (sx_bool (a 2%nat)) (sx_bool (a 3%nat))
+  | 2 => host_check (sx_bool (a 2%nat)) (sx_bool (a 3%nat)) (sx_outcome (a 4%nat))
   | 3 => query c (sx_Zs (a 2%nat))
   | 4 => accept_q c (sx_Z (a 2%nat)) (map sx_bool (sx_list (a 3%nat)))
   | 5 => ranges c (sx_optZs (a 2%nat)) (sx_Z (a 3%nat))
